@@ -8,7 +8,7 @@
 //! obs:   built [r,data,live,ev*]* mapped_alive mapped_end live_end      (see coq/Spec/C17.v)
 //! Every history runs in a forked child (an access outside its window would SIGSEGV); a child
 //! killed by a signal is the observation r = 3 of the operation that was running.
-//! Suite C17xenfind holds the known-finding candidates F6a/F6b; it is NOT part of ./check C17.
+//! Suite C17xenfind holds the known finding F6b (listed in known_findings.txt; printed as KNOWN-FINDING by ./check C17).
 use crate::tok::n;
 use crate::{util, Rng, Suite, Tier, Tok};
 use std::fs::File;
@@ -558,10 +558,22 @@ fn gen(rng: &mut Rng, tier: Tier, emit: &mut dyn FnMut(Vec<Tok>)) {
     let page = unsafe { libc::sysconf(libc::_SC_PAGESIZE) } as u64;
     let mut case = |rkind: u64, size: u64, gbase: u64, ops: Vec<Tok>| {
         let mut v = vec![n(mode), n(rkind), n(size), n(gbase), n(page)];
-        // candidate finding F6a (zero-length guard at a page boundary of an on-demand region): C17xenfind
-        v.extend(ops.into_iter().filter(|o| !(rkind == 3 && zero_len_aligned(size, page, o))));
+        // (F6a - a zero-length guard at a page boundary of an on-demand region used to panic - is repaired by a
+        // `fix:` commit; such operations are ordinary cases now)
+        v.extend(ops);
         emit(v)
     };
+    // formerly F6a (repaired): zero-length guards / zero-count transfers at page-aligned offsets of every region kind
+    for rkind in 0..4u64 {
+        let (size, gbase) = (2 * page, 0x40 * page);
+        case(rkind, size, gbase, vec![op(0, 5, 8, 0, 0), op(2, page, 0, 0, 0), op(1, 5, 8, 0, 0)]);
+        case(rkind, size, gbase, vec![op(2, 0, 0, 1, 0)]);
+        case(rkind, size, gbase, vec![op(7, page, 2, 0, 0)]);
+        case(rkind, size, gbase, vec![op(11, 2 * page, 8, 8, 0)]);
+        case(rkind, size, gbase, vec![op(12, page, 0, 0, 0)]);
+        case(rkind, size, gbase, vec![op(14, page, 3, 4, 1)]);
+        case(rkind, size, gbase, vec![op(2, 5, 0, 0, 0)]);
+    }
     // systematic: every guarded operation x offsets within / across pages, on every region kind
     let size = 3 * page;
     for rkind in 0..4u64 {
@@ -613,9 +625,6 @@ fn gen(rng: &mut Rng, tier: Tier, emit: &mut dyn FnMut(Vec<Tok>)) {
         let mut ops = Vec::new();
         while (ops.len() as u64) < nops {
             let o = rand_op(rng, size, page, rkind != 3);
-            if rkind == 3 && zero_len_aligned(size, page, &o) {
-                continue; // candidate finding F6a: see C17xenfind
-            }
             ops.push(o);
         }
         case(rkind, size, gbase, ops);
@@ -631,17 +640,6 @@ fn gen_find(_rng: &mut Rng, _tier: Tier, emit: &mut dyn FnMut(Vec<Tok>)) {
         v.extend(ops);
         emit(v)
     };
-    // F6a: zero-length guard at a page-aligned offset
-    case(vec![op(0, 5, 8, 0, 0), op(2, page, 0, 0, 0), op(1, 5, 8, 0, 0)]);
-    case(vec![op(2, 0, 0, 1, 0)]);
-    case(vec![op(7, page, 2, 0, 0)]);
-    // the same through read_volatile_from / write_volatile_to at the very end of the region (elsewhere
-    // Ok(0)), with count 0, and through copy_to::<u32> on a slice shorter than one element
-    case(vec![op(11, 2 * page, 8, 8, 0)]);
-    case(vec![op(12, page, 0, 0, 0)]);
-    case(vec![op(14, page, 3, 4, 1)]);
-    // (not page-aligned: works)
-    case(vec![op(2, 5, 0, 0, 0)]);
     // F6b: unguarded dereference of the null-based address
     case(vec![op(0, 8, 8, 0, 0), op(9, 8, 4, 0, 0)]);
     case(vec![op(9, 0, 8, 0, 0)]);
